@@ -291,6 +291,25 @@ fn case_tx_oversize(ctx: &mut Ctx, t: &Transaction) {
     );
 }
 
+/// a GoldenTicket-type transaction whose payload is not a 97-byte ticket: it
+/// encodes, and the decoder must reject it (it is outside wf_tx)
+fn case_tx_rejected(ctx: &mut Ctx, t: &Transaction) {
+    let mut fails = vec![];
+    let bytes = guarded("Transaction::serialize_for_net", &mut fails, || t.serialize_for_net()).unwrap_or_default();
+    match guarded("Transaction::deserialize_from_net", &mut fails, || Transaction::deserialize_from_net(&bytes)) {
+        Some(Ok(_)) => fails.push("a golden ticket transaction with a payload of the wrong length was decoded".into()),
+        _ => {}
+    }
+    ctx.summary.count("tx_kind", "golden-ticket-bad-payload");
+    ctx.push(
+        "transaction-rejected",
+        format!("KTxRej {} {}", g_tx(t), g_bytes(&bytes)),
+        &bytes,
+        format!("type={:?} data={}", t.transaction_type, t.data.len()),
+        fails,
+    );
+}
+
 fn case_block(ctx: &mut Ctx, rt: &tokio::runtime::Runtime, b: &Block, bt: BlockType, signer: Option<[u8; 33]>, kind: &str) {
     let mut fails = vec![];
     let bytes = guarded("Block::serialize_for_net", &mut fails, || b.serialize_for_net(bt)).unwrap_or_default();
@@ -528,8 +547,8 @@ fn case_ghost(ctx: &mut Ctx, g: &GhostChainSync) {
     if bytes.len() != 36 + 82 * g.prehashes.len() {
         fails.push("encoded length is not 36 + 82*count".into());
     }
-    match guarded("GhostChainSync::deserialize", &mut fails, || GhostChainSync::deserialize(bytes.clone())) {
-        Some(d) => {
+    match guarded("GhostChainSync::deserialize_checked", &mut fails, || GhostChainSync::deserialize_checked(bytes.clone())) {
+        Some(Ok(d)) => {
             if !ghost_eq(&d, g) {
                 fails.push("decoded ghost chain differs".into());
             }
@@ -537,6 +556,7 @@ fn case_ghost(ctx: &mut Ctx, g: &GhostChainSync) {
                 fails.push("re-encoding differs".into());
             }
         }
+        Some(Err(_)) => fails.push("decoder rejected the encoder's output".into()),
         None => {}
     }
     ctx.push("ghost-chain-sync", format!("KGhost {} {}", g_ghost(g), g_bytes(&bytes)), &bytes, format!("count={}", g.prehashes.len()), fails);
@@ -546,11 +566,12 @@ fn case_api(ctx: &mut Ctx, a: &ApiMessage) {
     let mut fails = vec![];
     let bytes = a.serialize();
     match guarded("ApiMessage::deserialize", &mut fails, || ApiMessage::deserialize(&bytes)) {
-        Some(d) => {
+        Some(Ok(d)) => {
             if d.msg_index != a.msg_index || d.data != a.data {
                 fails.push("decoded api message differs".into());
             }
         }
+        Some(Err(_)) => fails.push("decoder rejected the encoder's output".into()),
         None => {}
     }
     ctx.push("api-message", format!("KApi {} {}", g_api(a), g_bytes(&bytes)), &bytes, format!("data={}", a.data.len()), fails);
@@ -637,6 +658,7 @@ Inductive kase :=
 | KHop (v : hop) (bs : list N)
 | KTx (v : tx) (bs : list N) (size : N)
 | KTxRaw (v : tx) (bs : list N)
+| KTxRej (v : tx) (bs : list N)
 | KBlock (bt : N) (v : block) (bs : list N) (dty dntx : N)
 | KMsg (v : message) (bs : list N)
 | KChal (v : list N) (bs : list N)
@@ -657,6 +679,7 @@ Definition check (c : kase) : bool :=
   | KHop v h => rt encode_hop decode_hop eqb_hop wf_hop v h
   | KTx v h sz => rt encode_tx decode_tx eqb_tx wf_tx v h && (size_tx v =? sz) && (Nlen h =? sz)
   | KTxRaw v h => beq (encode_tx v) h
+  | KTxRej v h => beq (encode_tx v) h && (class_of (decode_tx h) =? 1) && negb (wf_tx v)
   | KBlock bt v h dty dntx =>
       let bs := h in let w := block_after_wire bt v in
       beq (encode_block bt v) bs && eqb_res eqb_block (decode_block bs) (Ok w) && wf_block v
@@ -667,7 +690,7 @@ Definition check (c : kase) : bool :=
   | KChal v h => rt encode_hs_challenge decode_hs_challenge beq (arr_ok 32) v h
   | KResp v h => rt encode_hs_response decode_hs_response eqb_hs_response wf_hs_response v h
   | KReq v h => rt encode_bc_request decode_bc_request eqb_bc_request wf_bc_request v h
-  | KGhost v h => rt encode_ghost decode_ghost eqb_ghost wf_ghost v h
+  | KGhost v h => rt encode_ghost decode_ghost_checked eqb_ghost wf_ghost v h
   | KApi v h => rt encode_api decode_api eqb_api wf_api v h
   | KSvc v h => rt encode_services decode_services (eqb_list eqb_service) wf_services v h
   | KVer v h => rt encode_version decode_version eqb_version wf_version v h
@@ -752,6 +775,12 @@ fn main() {
         case_tx_oversize(&mut ctx, &t);
         let t = gen_tx(&mut rng, 1, 256, 3, 0, 0);
         case_tx_oversize(&mut ctx, &t);
+    }
+    // golden ticket transactions: the payload must be a 97-byte ticket
+    for n in [0usize, 1, 96, 98, 200] {
+        let mut t = gen_tx(&mut rng, 1, 1, 0, 1, 2);
+        t.data = rvec(&mut rng, n);
+        case_tx_rejected(&mut ctx, &t);
     }
     // ---- blocks: all block types, 0..k transactions, genesis-like header
     for k in 0..(10 * mul) {
